@@ -22,6 +22,12 @@ def main():
     outdir = f'/tmp/seed/{pid}.out'
     if not letters:
         letters = sorted({os.path.basename(f).split('.')[0] for f in glob.glob(outdir + '/*.patch.diff')})
+    # snapshot of the checker taken together with the worktree: consistent even if /verif moves on meanwhile
+    home = tempfile.mkdtemp(prefix=f'seedhome-{pid}-', dir='/tmp')
+    os.makedirs(home + '/bin')
+    shutil.copy('/verif/bin/pverif', home + '/bin/pverif')
+    shutil.copytree('/verif/props', home + '/props')
+    shutil.copy('/verif/known_findings.json', home + '/known_findings.json')
     wt = tempfile.mkdtemp(prefix=f'seedchk-{pid}-', dir='/tmp')
     os.rmdir(wt)
     rc, out = sh(f'git -C /repo worktree add --detach {wt} HEAD')
@@ -80,21 +86,21 @@ def main():
             r['demo_patched_fails'] = (rc1 is not None and rc1 != 0)
             r['demo_output'] = (out1 or '')[-600:]
             sh('git checkout -- . && git clean -fdq', cwd=wt)
-            # run the check against /repo with the patch applied
+            # run the property's check against the scratch worktree with the patch applied (PVERIF_REPO points the
+            # checker at it; /repo itself is not touched, so work there can go on)
             scratch = tempfile.mkdtemp(prefix='seedout-', dir='/tmp')
-            rc, out = sh(f'git -C /repo apply {patch}')
+            rc, out = sh(f'git apply {patch}', cwd=wt)
             try:
                 if rc != 0:
-                    r['check'] = 'patch does not apply to /repo: ' + out[-300:]
+                    r['check'] = 'patch does not apply: ' + out[-300:]
                 else:
-                    env = dict(ENV, PVERIF_OUT=scratch)
-                    crc, cout = sh(f'/verif/bin/pverif check {pid} --tier quick', cwd='/verif', env=env, timeout=1200)
+                    env = dict(ENV, PVERIF_OUT=scratch, PVERIF_REPO=wt, PVERIF_HOME=home)
+                    crc, cout = sh(f'{home}/bin/pverif check {pid} --tier quick', cwd=home, env=env, timeout=1200)
                     r['check_exit'] = crc
                     r['check_violations'] = [l for l in cout.splitlines() if l.startswith('VIOLATION')][:6]
                     r['check_summary'] = cout.splitlines()[-1] if cout.splitlines() else ''
             finally:
-                if rc == 0:
-                    sh(f'git -C /repo apply -R {patch}')
+                sh('git checkout -- . && git clean -fdq', cwd=wt)
                 shutil.rmtree(scratch, ignore_errors=True)
             confirmed = r.get('applies') and r.get('builds') and r.get('tests_pass') and r.get('demo_clean_passes') and r.get('demo_patched_fails')
             r['confirmed'] = bool(confirmed)
@@ -114,6 +120,7 @@ def main():
     finally:
         sh(f'git -C /repo worktree remove --force {wt}')
         shutil.rmtree(wt, ignore_errors=True)
+        shutil.rmtree(home, ignore_errors=True)
     json.dump(results, open(f'/tmp/seed/{pid}.confirm.json', 'w'), indent=1)
 
 main()
